@@ -14,7 +14,7 @@ import (
 func propertyOfInvariant(v string) (string, string) {
 	switch {
 	case strings.Contains(v, "runs a task") || strings.Contains(v, "assigned to a worker") || strings.Contains(v, "queueIndex") ||
-		strings.Contains(v, "runs a completed task") || strings.Contains(v, "still has a worker") || strings.Contains(v, "not QUEUED"):
+		strings.Contains(v, "runs a completed task") || strings.Contains(v, "holds operation") || strings.Contains(v, "still has a worker") || strings.Contains(v, "not QUEUED"):
 		return "C01", "C01.inv_reachable (Inv.ptr / Inv.queues evaluated on the real structures)"
 	case strings.Contains(v, "wake-up channel"):
 		return "C02", "C02.no_lost_wakeup"
@@ -239,6 +239,9 @@ func (r *run) monitor(events []string, st *scheduler.VerifState, dump string) {
 		wk := tl["q"] + "/" + tl["w"]
 		completedNow := len(pf) > 7 && pf[0] == "sync" && pf[2]+"/"+pf[3]+"/"+pf[6] == wk && strings.HasPrefix(pf[7], "c:")
 		pt := prevTask[t]
+		if completedNow && pt != nil && strings.Split(pf[7], ":")[1] != pt["d"] {
+			completedNow = false // the worker reported the completion of something else: it is handed its task again
+		}
 		if pt != nil {
 			// the task is named after its lowest operation, which may have gone away
 			if old := lowestOpOf(pt["ops"]); old != t {
